@@ -33,7 +33,9 @@ DeclL(p, v) == [p |-> p, v |-> v, semi |-> FALSE, id |-> <<>>]
 Rule(sel, decls) == [t |-> "rule", sel |-> sel, decls |-> decls, id |-> <<>>]
 At(name, pre, kind, body) == [t |-> "at", name |-> name, pre |-> pre, kind |-> kind, body |-> body, id |-> <<>>]
 Import(form, path, layer, supp, media) ==
-    [t |-> "import", form |-> form, path |-> path, layer |-> layer, sub |-> "", supports |-> supp, media |-> media, id |-> <<>>]
+    [t |-> "import", form |-> form, path |-> path, layer |-> layer, sub |-> "", supports |-> supp, media |-> media, semi |-> TRUE, id |-> <<>>]
+(* an import that is ended by the end of the sheet or of the enclosing block instead of a `;` (css-syntax: an at-rule ends there too) *)
+ImportEnd(form, path, layer, supp, media) == [Import(form, path, layer, supp, media) EXCEPT !.semi = FALSE]
 ImportSub(form, path, layer, sub, supp, media) == [Import(form, path, layer, supp, media) EXCEPT !.sub = sub]
 Frame(sel, decls) == [sel |-> sel, decls |-> decls, id |-> <<>>]
 
@@ -247,6 +249,14 @@ FImport(lazy) == { <<Import(f, p, l, s, m)>> : f \in {"string", "url"}, p \in Im
                   <<At("media", <<I("screen", TRUE)>>, "rules", <<At("supports", <<Par(<<I("a", FALSE), Col(FALSE), I("b", FALSE)>>, TRUE)>>, "rules", <<Ord("m")>>),
                                                                   Import("string", "c", "none", <<>>, <<>>)>>)>> }
            \cup { <<Import("string", "a", "none", <<>>, <<>>), Import("string", "b", "x", <<>>, <<I("print", TRUE)>>), Ord("z")>> }
+           (* imports ended by the end of the sheet / of their block, with and without conditions *)
+           \cup { <<ImportEnd(f, p, l, s, m)>> : f \in {"string", "url"}, p \in {"a.wxss", "a b"}, l \in {"none", "x"},
+                     s \in {<<>>, <<I("display", FALSE), Col(FALSE), I("grid", TRUE)>>},
+                     m \in {<<>>, <<I("print", TRUE)>>, <<Par(<<I("min-width", FALSE), Col(FALSE), Dim(3, "px", TRUE)>>, TRUE)>>} }
+           \cup { <<Import("string", "a", "none", <<>>, <<>>), ImportEnd("string", "b", l, <<>>, m)>> : l \in {"none", "x"}, m \in {<<>>, <<I("screen", TRUE)>>} }
+           \cup { <<Ord("x"), At("layer", <<I("l", TRUE)>>, "rules", <<ImportEnd("string", "c", "none", <<>>, m)>>)>> :
+                     m \in {<<>>, <<Par(<<I("min-width", FALSE), Col(FALSE), Dim(3, "px", TRUE)>>, TRUE)>>} }
+           \cup { <<At("media", <<I("print", TRUE)>>, "rules", <<Ord("m"), ImportEnd("url", "c", "x", <<>>, <<I("screen", TRUE)>>)>>)>> }
            (* the same file imported more than once - under other conditions, in the other form, after another import: every
               occurrence is an import of its own (cascade order, layer and media differ) *)
            \cup { <<Import(f1, p, "none", <<>>, m1), Import(f2, p, l2, <<>>, m2), Ord("z")>> :
